@@ -132,10 +132,49 @@ func c15makeSig(X reflect.Type, outs []reflect.Type) *c15sig {
 		rec.ctx = args[0]
 		if len(args) > 1 {
 			rec.arg = args[1]
+			// A function may do what it likes with its argument: keep a copy of what a pointer
+			// argument pointed to and then overwrite the original - whatever storage the adapter
+			// used for this call must not show up in another call.
+			if a := args[1]; a.Kind() == reflect.Pointer && !a.IsNil() && a.Type() != c15reqType && a.Elem().CanSet() {
+				cp := reflect.New(a.Type().Elem())
+				cp.Elem().Set(a.Elem())
+				rec.arg = cp
+				c15scribble(a.Elem(), 0)
+			}
 		}
 		return rec.ret
 	})
 	return c15newSig(X, outs, fv.Interface(), rec)
+}
+
+// c15scribble overwrites v with values no params text of the workload produces.
+func c15scribble(v reflect.Value, depth int) {
+	if !v.CanSet() || depth > 2 {
+		return
+	}
+	switch v.Kind() {
+	case reflect.Int, reflect.Int8, reflect.Int16, reflect.Int32, reflect.Int64:
+		v.SetInt(0x5c)
+	case reflect.Uint, reflect.Uint8, reflect.Uint16, reflect.Uint32, reflect.Uint64:
+		v.SetUint(0x5c)
+	case reflect.Float32, reflect.Float64:
+		v.SetFloat(92.5)
+	case reflect.Bool:
+		v.SetBool(true)
+	case reflect.String:
+		v.SetString("scribbled")
+	case reflect.Slice:
+		v.Set(reflect.MakeSlice(v.Type(), 1, 1))
+	case reflect.Map:
+		v.Set(reflect.MakeMap(v.Type()))
+	case reflect.Struct:
+		for i := 0; i < v.NumField(); i++ {
+			c15scribble(v.Field(i), depth+1)
+		}
+	case reflect.Pointer, reflect.Interface:
+		// what it points to is shared with the copy the harness kept: drop the pointer instead
+		v.Set(reflect.Zero(v.Type()))
+	}
 }
 
 // c15retFor prepares the return values for evaluation k; errMode selects a
